@@ -34,7 +34,7 @@ def frame_level(k):
 
 
 def gen_scene(rng, *, single=False, max_frames=4, max_animals=3, allow_empty_inst=True, allow_pred=True,
-              min_hw=40, max_hw=120, two_videos_p=0.3, nan_p=0.25, empty_frames=False):
+              min_hw=40, max_hw=120, two_videos_p=0.3, nan_p=0.25, empty_frames=False, wide_p=0.0):
     """A JSON-able description of a tiny labelled project."""
     n_nodes = rng.choice([2, 3, 4, 5])
     # random tree skeleton with random edge listing
@@ -46,6 +46,9 @@ def gen_scene(rng, *, single=False, max_frames=4, max_animals=3, allow_empty_ins
     sizes = []
     for v in range(n_videos):
         sizes.append([rng.randint(min_hw, max_hw), rng.randint(min_hw, max_hw)])
+        if wide_p and rng.random() < wide_p:  # a strip: one side several times the other (rounding of the short side matters)
+            strip = [rng.randint(28, 44), rng.randint(160, 250)]  # coord_frame codes coordinates in 8 bits: stay below 256
+            sizes[-1] = strip if rng.random() < 0.7 else strip[::-1]
     n_frames = rng.randint(1, max_frames)
     frames = []
     used = set()
